@@ -119,6 +119,23 @@ def cash_band(item):
             'counters': {'cash_band_histories': n}}
 
 
+def many_batch(k):
+    """k portfolios, each with a sell and two buys queued while closed (submission interleaved across portfolios), then
+    one open update: every portfolio's orders fill once, in full, sells first, same side in submission order"""
+    hist = [('acct_sub', str(20000 * k))] + [('create', 'p%02d' % i) for i in range(k)]
+    hist += [('pf_sub', 'p%02d' % i, '15000') for i in range(k)] + [('tick', 1)]
+    for rnd, (a, q) in enumerate((('A', 2), ('Bq', -3), ('A', 5))):
+        order = range(k) if rnd != 1 else range(k - 1, -1, -1)
+        hist += [('submit', 'p%02d' % i, a, q if i % 2 else (q + 1 if q > 0 else q - 1)) for i in order]
+    hist += [('tick', 2), ('tick', 3)]
+    viols = []
+    for cut in (len(hist) - 1, len(hist)):
+        m, fails = bm.build(FEE, tuple(hist[:cut]), check_last=True)
+        viols += [dict(f, case={'harness': 'many_batch', 'k': k}) for f in fails if f['clause'].startswith('C04.')]
+    return {'viols': viols[:4], 'execs': 2, 'evals': 2, 'nontrivial': True, 'outcome': ('many_batch', k),
+            'counters': {'portfolios_in_largest_account': k}}
+
+
 def run(tier, res, is_known):
     depth = 5 if tier == 'quick' else 7
     res.rule = ('BFS over interleavings of submissions (2 portfolios x 2 assets x buy/sell) with clock updates '
@@ -145,6 +162,8 @@ def run(tier, res, is_known):
             label='long periodic histories', chunk=4)
     # many orders in ONE batch: k buys and k sells of both assets queued before a single update
     product(big_batch, [4, 9, 30, 100], res, is_known, label='large single batches', chunk=1)
+    product(many_batch, [5, 9, 17, 33] if tier == 'quick' else [5, 8, 9, 12, 17, 32, 33, 40], res, is_known,
+            label='accounts with many portfolios, one update', chunk=1)
     if any(not is_known(v) for v in res.violations):
         return
     product(cash_band, cash_band_items(tier), res, is_known, label='cash at the cost of the shares / of shares + fees', chunk=4)
@@ -159,6 +178,8 @@ def replay(case):
         return bm.replay_periodic(case, 'C04.')
     if case.get('harness') == 'big_batch':
         return big_batch(case['k'])['viols']
+    if case.get('harness') == 'many_batch':
+        return many_batch(case['k'])['viols']
     if case.get('harness') == 'cash_band':
         it = case['item']
         return cash_band((tuple(it[0]), it[1], it[2], it[3]))['viols']
@@ -166,7 +187,7 @@ def replay(case):
 
 
 def minimise(case, clause):
-    if case.get('harness') in ('hours', 'periodic', 'big_batch', 'cash_band'):
+    if case.get('harness') in ('hours', 'periodic', 'big_batch', 'cash_band', 'many_batch'):
         return case
     return bm.minimise_broker(case, clause, 'C04.')
 
